@@ -81,7 +81,8 @@ def gen(rng, i, tier):
     if v is not None:
         sf.append(["VERSION", v])
     sf.append(["BPMS", rng.choice(["0.000=120.000", "0.000=100,\n4.000=50.5,\n9=200", "0=60",
-                                   "0.000=100,\n0.000=200", "0.000=60,\n0.010=240,\n4=120", "0=90,\n4=180,\n4.000=45", "0=128,\n32=128", "0=128,\n8=128.000,\n9=128"])])     # rows sharing a beat (or a tick) are all kept
+                                   "0.000=100,\n0.000=200", "0.000=60,\n0.010=240,\n4=120", "0=90,\n4=180,\n4.000=45", "0=128,\n32=128", "0=128,\n8=128.000,\n9=128",
+                                   "0=150,32=-6000,32.5=150", "0=120,4=-300", "0=0,4=100", "0=-90"])])     # rows sharing a beat (or a tick) are all kept
     for key in ("OFFSET", "STOPS", "DELAYS", "WARPS", "FREEZES"):
         st = rng.choice(["absent", "empty", "value"])
         if key == "FREEZES" and (kind != "SM" or rng.random() < 0.6):
